@@ -213,6 +213,16 @@ Definition provs_ok (c : cfg) (o : ost) (l : list (N * list N)) : bool :=
   forallb (fun x : N * list N =>
              mem (fst x) (map fst input) && nlist_eqb (snd x) (addr_set (addrs_of (fst x) input))) l.
 
+(* nothing is in flight and every peer the lookup learned of (except itself) was contacted *)
+Definition exhausted (c : cfg) (o : ost) : bool :=
+  match o_fl o with
+  | [] => forallb (fun p => (p =? c_local c) || mem p (o_sent o)) (o_known o)
+  | _ => false
+  end.
+
+(* what the lookup really has: the local record (counted once) plus the records received *)
+Definition have_records (c : cfg) (o : ost) : N := c_known c + N.of_nat (length (o_got o)).
+
 Definition judge (c : cfg) (local_seed : bool) (o : ost) (e : event) (a : action) : option ost :=
   if o_term o then
     match a with ANone => Some o | _ => None end     (* nothing after the terminal action *)
@@ -230,9 +240,12 @@ Definition judge (c : cfg) (local_seed : bool) (o : ost) (e : event) (a : action
           if (local_seed || negb (p =? c_local c)) &&
              negb (mem p (o_sent o)) &&
              mem p (o_known o) &&
+             (* greedy: the closest peer the lookup knows of and has not contacted yet *)
+             forallb (fun q => (q =? c_local c) || mem q (o_sent o) || (c_dist c p <=? c_dist c q))
+                     (o_known o) &&
              (in_flight c now (o_fl o) <? c_alpha c) &&
              match c_kind c with
-             | KRecord => negb (c_needed c <=? c_known c + N.of_nat (length (o_got o)))
+             | KRecord => negb (c_needed c <=? have_records c o)
              | _ => true
              end
           then Some (mkO (o_fl o ++ [(p, now)]) (o_sent o ++ [p]) (o_ans o) (o_known o)
@@ -244,20 +257,30 @@ Definition judge (c : cfg) (local_seed : bool) (o : ost) (e : event) (a : action
                          (o_emit o ++ [(p, r)]) (o_provs o) false)
           else None
       | AFailed =>
-          Some (mkO (o_fl o) (o_sent o) (o_ans o) (o_known o) (o_got o) (o_emit o) (o_provs o) true)
+          (* failure only when every learned peer was tried and nothing at all was obtained *)
+          if exhausted c o &&
+             match c_kind c with
+             | KFind => match o_ans o with [] => true | _ => c_k c =? 0 end
+             | KRecord => have_records c o =? 0
+             | KProviders => match c_kprov c ++ o_provs o with [] => true | _ => false end
+             end
+          then Some (mkO (o_fl o) (o_sent o) (o_ans o) (o_known o) (o_got o) (o_emit o) (o_provs o) true)
+          else None
       | AFound l =>
           if match c_kind c with KFind => found_ok c o l | _ => false end
           then Some (mkO (o_fl o) (o_sent o) (o_ans o) (o_known o) (o_got o) (o_emit o)
                          (o_provs o) true)
           else None
       | ARecDone =>
+          (* success: the quorum is really met, or everybody was tried and something was found *)
           if match c_kind c with KRecord => true | _ => false end &&
+             ((c_needed c <=? have_records c o) || (exhausted c o && (1 <=? have_records c o))) &&
              forallb (fun x => pair_mem x (o_emit o)) (o_got o)
           then Some (mkO (o_fl o) (o_sent o) (o_ans o) (o_known o) (o_got o) (o_emit o)
                          (o_provs o) true)
           else None
       | AProvDone l =>
-          if match c_kind c with KProviders => provs_ok c o l | _ => false end
+          if match c_kind c with KProviders => exhausted c o && provs_ok c o l | _ => false end
           then Some (mkO (o_fl o) (o_sent o) (o_ans o) (o_known o) (o_got o) (o_emit o)
                          (o_provs o) true)
           else None
